@@ -95,7 +95,7 @@ def _stripped_mode(node):
 def _function(fn, qual):
     info = {"name": qual, "tries": [], "calls": _calls(fn.body), "raises": [], "bodies": [], "responses": []}
     in_handler = set()
-    for n in ast.walk(fn):
+    for n in sorted((x for x in ast.walk(fn) if hasattr(x, "lineno")), key=lambda x: (x.lineno, x.col_offset)):
         if isinstance(n, ast.Try):
             if n.finalbody or n.orelse:
                 raise TranslationError(f"line {n.lineno}: try/else/finally not supported")
@@ -109,7 +109,7 @@ def _function(fn, qual):
                     for x in ast.walk(s):
                         in_handler.add(id(x))
             info["tries"].append((_calls(n.body), hs))
-    for n in ast.walk(fn):
+    for n in sorted((x for x in ast.walk(fn) if hasattr(x, "lineno")), key=lambda x: (x.lineno, x.col_offset)):
         if isinstance(n, ast.Raise) and id(n) not in in_handler and n.exc is not None:
             info["raises"].append(_raise_action(n)[1])
         if isinstance(n, ast.Call):
